@@ -284,11 +284,11 @@ fn c10(tier: Tier, seed: u64) -> i32 {
 
 fn c11(tier: Tier, seed: u64) -> i32 {
     let mut ctx = Ctx::new("C11", tier, seed);
-    let n = ctx.n(1800, 200_000);
+    let n = ctx.n(3600, 200_000);
     ctx.run_batch("mixed_scripts", "scenario as C10 (scripts incl. repeated pause, resume without pause, commands after completion, abort while paused / before any chain started; chains of different simulated speed; finite/absent progress-callback rate) x seeded schedules; invariants: no deadlock (shuttle: all tasks blocked), no livelock (step bound), every call returns; oracles: complete traces or exact prefixes, progress()/callback/inspect snapshots agree exactly with the recorded trace; non-trivial = >4 context switches with a script or an abort", n, |rs, _| {
         gen_sched(rs, &GenOpts { prop: "C11", style: ScriptStyle::Mixed, tier, allow_abort: true, natural_divergences: true })
     });
-    let n2 = ctx.n(500, 50_000);
+    let n2 = ctx.n(1000, 50_000);
     ctx.run_batch("pause_then_abort", "pause-focused scripts, half of them ending in abort while paused", n2, |rs, _| {
         let mut sc = gen_sched(rs, &GenOpts { prop: "C11", style: ScriptStyle::PauseFocused, tier, allow_abort: true, natural_divergences: false });
         let mut r = Prng::sub(rs, "tweak");
@@ -309,11 +309,11 @@ fn c11(tier: Tier, seed: u64) -> i32 {
 
 fn c12(tier: Tier, seed: u64) -> i32 {
     let mut ctx = Ctx::new("C12", tier, seed);
-    let n = ctx.n(2200, 250_000);
+    let n = ctx.n(4400, 250_000);
     ctx.run_batch("pause_resume", "pause-focused scripts (pause at a seeded point, progress snapshot, many yields of the user task so chains get every chance to overrun, resume; repeated pauses, double pause, double resume) x seeded schedules; oracle over global event sequence numbers: draws recorded per chain between return of pause() and next resume() <= 1 + earlier resume commands; unstarted chains record nothing; final trace equals the uninterrupted run; non-trivial = at least one pause interval checked", n, |rs, _| {
         gen_sched(rs, &GenOpts { prop: "C12", style: ScriptStyle::PauseFocused, tier, allow_abort: false, natural_divergences: false })
     });
-    let n2 = ctx.n(600, 60_000);
+    let n2 = ctx.n(1200, 60_000);
     ctx.run_batch("mixed_scripts", "mixed scripts (resume without pause, pause bursts)", n2, |rs, _| {
         gen_sched(rs, &GenOpts { prop: "C12", style: ScriptStyle::Mixed, tier, allow_abort: false, natural_divergences: false })
     });
@@ -324,7 +324,7 @@ fn c12(tier: Tier, seed: u64) -> i32 {
 
 fn c13(tier: Tier, seed: u64) -> i32 {
     let mut ctx = Ctx::new("C13", tier, seed);
-    let n = ctx.n(48, 3000);
+    let n = ctx.n(96, 3000);
     ctx.run_batch("enumerate_faults", "per base run (<=3 chains, <=6 draws, scripts with flush/inspect/pause, wait or abort ending): EVERY fault position is injected in turn — an unrecoverable density error at every evaluation index of every chain (strided beyond 48 per chain), recoverable-class faults at every third, a record_sample error at every (chain, draw), chain/trace finalize, flush, inspect, new_trace, initialize_trace_for_chain, Model::math for controller and each chain, init_position error, first 1/7/all initialisation attempts failing — each under 2 seeded schedules; non-trivial = a fatal fault fired (recorded by the stub)", n, |rs, _| {
         let mut sc = gen_sched(rs, &GenOpts { prop: "C13", style: ScriptStyle::Mixed, tier, allow_abort: true, natural_divergences: false });
         let mut r = Prng::sub(rs, "tweak");
@@ -347,7 +347,7 @@ fn c13(tier: Tier, seed: u64) -> i32 {
         sc.enumerate_faults = true;
         sc
     });
-    let n2 = ctx.n(400, 40_000);
+    let n2 = ctx.n(800, 40_000);
     ctx.run_batch("two_faulty_chains", "two or three simultaneous faults in different chains / layers at seeded positions, larger runs (<=6 chains), 4-8 schedules", n2, |rs, _| {
         let mut sc = gen_sched(rs, &GenOpts { prop: "C13", style: ScriptStyle::Mixed, tier, allow_abort: true, natural_divergences: false });
         let mut r = Prng::sub(rs, "faults");
